@@ -1,9 +1,12 @@
 /* Independent MXCSR observer (not the repository's generated stubs). */
 #include <xmmintrin.h>
+#include <stdint.h>
+#include <string.h>
 unsigned int vf_get_mxcsr(void) { return _mm_getcsr(); }
 void vf_set_mxcsr(unsigned int v) { _mm_setcsr(v); }
-/* arithmetic probes executed in C so that numpy/python constant folding cannot interfere */
-float vf_mul_f32(float a, float b) { volatile float x = a, y = b; volatile float r = x * y; return r; }
-float vf_add_f32(float a, float b) { volatile float x = a, y = b; volatile float r = x + y; return r; }
-double vf_mul_f64(double a, double b) { volatile double x = a, y = b; volatile double r = x * y; return r; }
-double vf_add_f64(double a, double b) { volatile double x = a, y = b; volatile double r = x + y; return r; }
+/* arithmetic probes: operands and results travel as bit patterns so that no int<->float or float<->double conversion
+   (which is itself subject to FTZ/DAZ) happens outside the one operation under observation */
+static float f_of(uint32_t b) { float f; memcpy(&f, &b, 4); return f; }
+static uint32_t b_of(float f) { uint32_t b; memcpy(&b, &f, 4); return b; }
+uint32_t vf_mul_bits(uint32_t a, uint32_t b) { volatile float x = f_of(a), y = f_of(b); volatile float r = x * y; return b_of(r); }
+uint32_t vf_add_bits(uint32_t a, uint32_t b) { volatile float x = f_of(a), y = f_of(b); volatile float r = x + y; return b_of(r); }
